@@ -270,6 +270,68 @@ def rule_protocol(chk, db, cfgname, rid):
     chk.count(rid.lower() + '.pairs', n)
 
 
+def rule_cache_identity(chk, db, cfgname, rid):
+    chk.rule(rid, 'CsgOpNode::cache_ holds the result of exactly one (children, op, transform) triple: an op node is never '
+             'copy-constructed or copy-assigned (the copy would carry a cache computed under another transform), and '
+             'transform_/op_/impl_ of an op node are written only on a node default-constructed in the same function')
+    OP = 'manifold::CsgOpNode'
+    n = 0
+    for f in db.functions.values():
+        if not f.get('blocks') or not f['file'].startswith('src/'):
+            continue
+        fresh = set()
+        for b in f['blocks']:
+            for e in b['ev']:
+                if e.get('k') == 'decl':
+                    for v in e['vars']:
+                        i = T.strip_copy(v['init']) if v.get('init') is not None else None
+                        if i is not None and i.get('k') == 'call' and T.short(i.get('fn', '')) == 'make_shared' and \
+                                'CsgOpNode' in ''.join(db.T(f, i).get('targs') or []):
+                            copied = any(db.T(f, T.strip_copy(a)).get('r') == OP or
+                                         (T.strip_copy(a).get('k') == 'un' and T.strip_copy(a).get('op') == '*' and
+                                          T.strip_copy(T.strip_copy(a)['e']).get('k') == 'this' and f.get('cls') == OP)
+                                         for a in i.get('args', []))
+                            n += 1
+                            chk.obligation(not copied, {'function': f['name'][:70], 'line': e.get('ln'),
+                                                        'make_shared<CsgOpNode>': 'copy of an existing node' if copied
+                                                        else 'fresh node'})
+                            if copied:
+                                chk.violation(rid, f, 'op node copy-constructed',
+                                              'make_shared<CsgOpNode>(existing node) copies cache_ together with the '
+                                              'children: the new node answers ToLeafNode with a result computed under '
+                                              'the old transform', line=e.get('ln'), cfg=cfgname)
+                            else:
+                                fresh.add(v['n'])
+                if e.get('k') == 'ctor' and e.get('cls') == OP and (e.get('copy')) and not f.get('defaulted'):
+                    n += 1
+                    chk.obligation(False, {'function': f['name'][:70], 'line': e.get('ln'), 'CsgOpNode': 'copy constructed'})
+                    chk.violation(rid, f, 'op node copy-constructed', 'a CsgOpNode is copy-constructed: its cache_ '
+                                  'travels to a node with a different identity', line=e.get('ln'), cfg=cfgname)
+        for b in f['blocks']:
+            for e in b['ev']:
+                lhs = None
+                if e.get('k') == 'bin' and e.get('op') == '=':
+                    lhs = T.strip(e['l'])
+                elif e.get('k') == 'call' and e.get('op') == '=' and e.get('recv') is not None:
+                    lhs = T.strip(e['recv'])
+                if lhs is None or lhs.get('k') != 'mem' or lhs.get('cls') != OP or \
+                        lhs.get('n') not in ('transform_', 'op_', 'impl_'):
+                    continue
+                if f.get('cls') == OP and f.get('kind') == 'ctor':
+                    continue
+                n += 1
+                base = T.root_of(lhs)
+                ok = base is not None and base.get('k') == 'var' and base.get('n') in fresh
+                chk.obligation(ok, {'function': f['name'][:70], 'line': e.get('ln'), 'write': T.pstr(lhs)[:40],
+                                    'on a node created here': ok})
+                if not ok:
+                    chk.violation(rid, f, '%s written on an existing node' % lhs['n'],
+                                  '%s of an op node that was not default-constructed in this function is rewritten: a '
+                                  'cache_ it may already hold no longer matches the node' % lhs['n'],
+                                  line=e.get('ln'), cfg=cfgname)
+    chk.count(rid.lower() + '.opnode_sites', n)
+
+
 def main(chk, tier):
     import db as D
     configs = ['seq', 'par'] if tier == 'quick' else ['seq', 'par', 'seq-debug']
@@ -285,9 +347,11 @@ def main(chk, tier):
         rule_status(chk, db, cfgname, 'C03.3')
         rule_operand_order(chk, db, cfgname, tab, 'C03.4')
         rule_protocol(chk, db, cfgname, 'C03.5')
+        rule_cache_identity(chk, db, cfgname, 'C03.6')
     n = len(configs)
     chk.floor('c03.1.products', 6 * n)
     chk.floor('c03.4.reorder_events', 3 * n)
+    chk.floor('c03.6.opnode_sites', 1 * n)
     return chk.finish(
         'Operand-provenance lints over the CSG evaluator: transform composition order at the six product sites, '
         'transform-independence of what is stored into the shared operand vector, status tests in the three '
